@@ -823,7 +823,8 @@ def generate(unit, template_text, repo_root, units_dir=None):
                 # visibility normalisation (R0): everything in the generated file is `pub`
                 stext = re.sub(r"^(\s*)(struct|enum|union)\b", r"\1pub \2", stext, count=1, flags=re.M)
                 if re.search(r"(?m)^\s*pub struct\b[^;{(]*\{", stext):
-                    stext = re.sub(r"(?m)^(\s+)([A-Za-z_][A-Za-z0-9_]*\s*:)", r"\1pub \2", stext)
+                    b_ = stext.index("{")
+                    stext = stext[:b_] + re.sub(r"(?m)^(\s+)([A-Za-z_][A-Za-z0-9_]*\s*:)", r"\1pub \2", stext[b_:])
                 elif re.search(r"(?m)^\s*pub struct\b[^;{(]*\(", stext):
                     # tuple struct: make the fields pub
                     m_ = re.match(r"^(.*?pub struct\b[^(]*\()(.*)(\)\s*;\s*)$", stext, re.S)
